@@ -1547,8 +1547,15 @@ impl Zeroconf {
                     expired_services.len()
                 );
                 // A removed instance may be found again later: let it have its
-                // resolve queries again then.
-                for instance in expired_services.values().flatten() {
+                // resolve queries again then. (Only what is reported: an instance
+                // that merely lost a PTR of a type nobody browses stays resolved.)
+                for (ty_domain, instance) in expired_services
+                    .iter()
+                    .flat_map(|(ty_domain, instances)| instances.iter().map(move |i| (ty_domain, i)))
+                {
+                    if !self.service_queriers.contains_key(ty_domain) {
+                        continue;
+                    }
                     self.resolved.remove(instance);
                     self.pending_resolves.remove(instance);
                     self.retransmissions.retain(
